@@ -254,17 +254,25 @@ C(f"{F}:Parser._append_node_or_token", params={"self": "obj:Parser", "tree": f"o
 # located error of this parser at the token (C11) -- literal_eval's own exception, whose coordinates are relative to the text, never escapes
 C(f"{F}:Parser.literal_eval", params={"self": "obj:Parser", "token": "Tok"}, returns="lit",
   requires=TKW + ["tok_wf(token)"],
-  ensures=["lit_val(result) == le_val(token.string)", "lit_isbytes(result) == le_isbytes(token.string)", *TKW],
+  ensures=["lit_val(result) == le_val(token.string)", "lit_isbytes(result) == le_isbytes(token.string)", "lit_numkind(result) == le_numkind(token.string)", *TKW],
   raises=["SyntaxError"], may_raise=["SyntaxError"], raises_ensures=[WF], modifies=ERRMOD, properties=["C01", "C11", "C03"])
+
+# the two halves of a complex literal in a match pattern (`case 1+2j`): the real part must be an int / float literal, the imaginary one a complex
+for _nm, _kind, _what in (("ensure_real", 1, "real"), ("ensure_imaginary", 2, "imaginary")):
+    C(f"{F}:Parser.{_nm}", params={"self": "obj:Parser", "number": "Tok"}, returns="lit", requires=TKW + ["tok_wf(number)"],
+      ensures=[f"le_numkind(number.string) == {_kind}", "lit_val(result) == le_val(number.string)"],
+      raises=["SyntaxError"], raises_ensures=[WF], modifies=ERRMOD, properties=["C02", "C11"])
 
 # ---------------------------------------------------------------------------------------------- implicit concatenation of plain literals (C01, C02)
 MIX = "any(le_isbytes(parts[j].string) != le_isbytes(parts[0].string) for j in range(1, len(parts)))"
 C(f"{F}:Parser._concat_strings_in_constant", params={"self": "obj:Parser", "parts": "seq[Tok]"}, returns="obj:ast.Constant#lit",
   requires=TKW + ["len(parts) >= 1", "all(tok_wf(parts[j]) for j in range(len(parts)))"],
-  requires_assumed={"pos_le(parts[0].start, parts[len(parts) - 1].end)": "C08: tokens appear in non-decreasing position order"},
+  requires_assumed={"pos_le(parts[0].start, parts[len(parts) - 1].end)": "C08: tokens appear in non-decreasing position order",
+                    "all(le_numkind(parts[j].string) == 0 for j in range(len(parts)))": "C09: the text of a STRING token is a str / bytes literal (not a number)"},
   witness={MIX: {"j": "1 + _i"}}, modifies=ERRMOD,
   loops={0: {"inv": TKW + ["lit_isbytes(s) == le_isbytes(parts[0].string)", "all(le_isbytes(parts[j].string) == le_isbytes(parts[0].string) for j in range(1, 1 + _i))",
-                     "lit_val(s) == lit_fold(parts, 1 + _i)", "implies(1 + _i < len(parts), tok_wf(parts[1 + _i]))"],
+                     "lit_val(s) == lit_fold(parts, 1 + _i)", "implies(1 + _i < len(parts), tok_wf(parts[1 + _i]))", "lit_numkind(s) == 0",
+                     "implies(1 + _i < len(parts), le_numkind(parts[1 + _i].string) == 0)"],
              "types": {"s": "lit", "part": "lit", "ss": "Tok"}}},
   ensures=[
       # C01: one Constant spanning from the first literal's start to the last literal's end ...
@@ -350,7 +358,7 @@ C(f"{F}:Parser.proc_macro_arg", params={"self": "obj:Parser", "a": "seq[val]", *
            "self._tokenizer._proc_macro == False"],
   modifies=["self._tokenizer._proc_macro"], raises=[], properties=["C07", "C12", "C14"])
 
-C(f"{F}:Parser.set_expr_context", params={"self": "obj:Parser", "node": "obj:ast.Starred", "context": "union[const:Load|const:Store|const:Del]"},
+C(f"{F}:Parser.set_expr_context", params={"self": "obj:Parser", "node": "union[obj:ast.Starred|obj:ast.Tuple|obj:ast.Name|obj:PosNode]", "context": "union[const:Load|const:Store|const:Del]"},
   ensures=["result is node", "node.ctx is context"], modifies=["node.ctx"], raises=[], properties=["C04"])
 
 # `a?` / `a??` (and the chain `a?.b?`): a call of __xonsh__.help / superhelp spanning from the first atom to the last question mark(s)
